@@ -24,7 +24,7 @@ def run(tier, seed, res, lean):
     problems = [p for o in outs for p in o[1]]
     # the first calls on a fresh pipeline object (lazy compilation of the fields) from two threads, interleaved line by line inside
     # the compiler and the layer code
-    fu = pmap(suite_sched.run_first_use, [(seed * 977 + i + 5, 6 if tier == 'quick' else 40) for i in range(16)])
+    fu = pmap(suite_sched.run_first_use, [(seed * 977 + i + 5, i, tier != 'quick') for i in range(16)])
     problems += [p for o in fu for p in o[1]]
     first_use_runs = sum(o[0]['first_use_runs'] for o in fu)
     for p in problems[:6]:
